@@ -15,6 +15,7 @@ import (
 	"runtime/debug"
 	"sort"
 	"strings"
+	"sync/atomic"
 	"testing"
 	"time"
 
@@ -104,7 +105,16 @@ func safeSprint(p any) (s string) {
 	return fmt.Sprint(p)
 }
 
-const runTimeout = 5 * time.Second
+const runTimeout = 4 * time.Second
+
+// watchdog budget: a tree on which (nearly) every run hangs must not burn the
+// whole time budget; after maxExpiries the remaining cases are skipped and the
+// run is reported as inconclusive (never as a violation).
+const maxExpiries = 8
+
+var expiries atomic.Int64
+
+func overBudget() bool { return expiries.Load() >= maxExpiries }
 
 // execVM runs the VM's current bytecode under a watchdog; nothing the VM does
 // may escape as a panic - if it does, the panic and its stack are captured.
@@ -138,6 +148,7 @@ func execVM(vm *ugo.VM, globals ugo.Object, lg *logger, args []ugo.Object) resul
 		case <-ch:
 		case <-time.After(10 * time.Second):
 		}
+		expiries.Add(1)
 		return result{class: "timeout", lg: lg}
 	}
 	out := result{lg: lg}
@@ -320,6 +331,10 @@ func describe(c *caseData) string {
 
 func judge(c *caseData) verdict {
 	var v verdict
+	if overBudget() {
+		v.inconcl = "skipped-after-watchdog-budget"
+		return v
+	}
 	bc, err, pan := compileCase(c)
 	if err != nil || pan != "" {
 		v.harness = fmt.Sprintf("compile: %v %s", err, pan)
@@ -669,6 +684,10 @@ func TestCheck(t *testing.T) {
 
 	// deterministic sweep of the stack alignment for a few shapes (all shards: cheap)
 	edgeSweep(t, rec)
+
+	if overBudget() {
+		t.Errorf("INCONCLUSIVE: %d runs hit the %v watchdog; the remaining cases were skipped (hangs are not judged by this property)", expiries.Load(), runTimeout)
+	}
 }
 
 // ---------------------------------------------------------------- replay
